@@ -32,6 +32,13 @@ def run(tier):
     r2 = ck.rng.fork("cerr")
     for i in range(800 if quick else 30000 * common.TS):
         plist.append({"name": "cerr/%d" % i, "steps": [("snip", feat_err.compile_error_program(r2.fork(str(i))))], "mods": []})
+    # the same reports from far down a source text: line numbers around and beyond 2^15, 2^16 and 2^17 (blank lines in front)
+    rl = ck.rng.fork("farlines")
+    for i in range(48 if quick else 1500 * common.TS):
+        src, mods = feat_err.program(rl.fork(str(i)))
+        pad = rl.choice([32766, 32767, 32768, 65533, 65534, 65535, 65536, 65537, 70000, 131071, 131072, 131073, 200000])
+        plist.append({"name": "farlines/%d+%d" % (i, pad), "steps": [("snip", "\n" * pad + src)], "mods": mods, "natives": True})
+        ck.count("far_line_programs")
     classes = {}
 
     def seen(p, m, res):
